@@ -19,7 +19,13 @@ func (y CheckWhen) CheckContainerPostConstraints(r ChildRequest, s *Selection) (
 }
 
 func (y CheckWhen) CheckFieldPreConstraints(r *FieldRequest, hnd *ValueHandle) (bool, error) {
-	return y.check(r.Selection, r.Meta)
+	s := r.Selection
+	if s != nil && s.parent != nil && meta.IsLeaf(s.Meta()) {
+		// the leaf was selected itself (Find then Get or Set). its condition is about the
+		// node that holds it, like when it is read as part of that node
+		s = s.parent
+	}
+	return y.check(s, r.Meta)
 }
 
 func (y CheckWhen) CheckListPostConstraints(r ListRequest, child *Selection, key []val.Value) (bool, bool, error) {
